@@ -49,7 +49,7 @@ func sortKeys[K comparable](keys []K) {
 	case []uint64:
 		sort.Slice(ks, func(i, j int) bool { return ks[i] < ks[j] })
 	case []float64:
-		sort.Float64s(ks)
+		sort.Float64s(ks) // NaNs first; they are told apart by nothing a program can see
 	default:
 		sort.Slice(keys, func(i, j int) bool {
 			return fmt.Sprintf("%#v", keys[i]) < fmt.Sprintf("%#v", keys[j])
@@ -64,11 +64,26 @@ type MapIter[K comparable, V any] struct {
 	i    int
 	k    K
 	v    V
+	nan  []V // values stored under keys that are not equal to themselves (NaN)
 }
 
 // NewMapIter snapshots and orders the keys of m.
 func NewMapIter[M ~map[K]V, K comparable, V any](m M) *MapIter[K, V] {
-	return &MapIter[K, V]{m: m, keys: MapKeys(m)}
+	it := &MapIter[K, V]{m: m, keys: MapKeys(m)}
+	for _, k := range it.keys {
+		if k != k {
+			// a NaN key cannot be looked up again: keep the values of such entries,
+			// in an order that does not depend on the runtime's iteration order
+			for k2, v := range m {
+				if k2 != k2 {
+					it.nan = append(it.nan, v)
+				}
+			}
+			sort.Slice(it.nan, func(i, j int) bool { return fmt.Sprintf("%#v", it.nan[i]) < fmt.Sprintf("%#v", it.nan[j]) })
+			break
+		}
+	}
+	return it
 }
 
 // Next advances to the next key that is still present.
@@ -76,6 +91,14 @@ func (it *MapIter[K, V]) Next() bool {
 	for it.i < len(it.keys) {
 		k := it.keys[it.i]
 		it.i++
+		if k != k {
+			if len(it.nan) == 0 {
+				continue
+			}
+			it.k, it.v = k, it.nan[0]
+			it.nan = it.nan[1:]
+			return true
+		}
 		if v, ok := it.m[k]; ok {
 			it.k, it.v = k, v
 			return true
